@@ -133,7 +133,7 @@ def spaces(tier, seed):
     tiny = _Tiny(tier)
     words = _Words(tier)
     out = []
-    if tier == 'quick':
+    if True:
         out.append(ProductSpace('tiny{-1,0,1}^10', [[-1, 0, 1]] * 10, tiny,
                                 describe='every signal in {-1,0,1}^10, fs=8, band (1,3), 5/9-tap filter',
                                 bounds={'combos': len(tiny.cmbs)}))
@@ -150,21 +150,20 @@ def spaces(tier, seed):
         out.append(ProductSpace('words-W(6,5)', S.word_dims(S.alphabet(6), 5), words,
                                 describe='all 5-letter words over 6 letters, fs=64 band (6,14)',
                                 bounds={'combos': len(words.cmbs), 'letters': S.alphabet(6)}))
-    else:
+    if tier != 'quick':
         out.append(ProductSpace('tiny{-1,0,1}^12', [[-1, 0, 1]] * 12, tiny, bounds={'combos': len(tiny.cmbs)},
                                 describe='every signal in {-1,0,1}^12, fs=8, band (1,3), 5/9-tap filter'))
-        from bcmc.explore import ListSpace
         crops = [[i, c0, c1, list(fr)] for i in range(6) for c0 in range(0, 16) for c1 in range(0, 9)
                  for fr in ((6, 14), (5, 12), (7, 16), (6, 10))]
-        out.append(ListSpace('sensitive-crops', crops, eval_crop))
-        out.append(ProductSpace('short{-2,0,2}^13', [[-2, 0, 2]] * 13, eval_short))
-        t2 = _Tiny2(tier)
-        out.append(ProductSpace('tiny2{-1,0,1}^12', [[-1, 0, 1]] * 12, t2, bounds={'combos': len(t2.cmbs)}))
-        out.append(ProductSpace('tiny{-2..2}^8', [[-2, -1, 0, 1, 2]] * 8, tiny, bounds={'combos': len(tiny.cmbs)},
-                                describe='every signal in {-2..2}^8'))
-        al = S.alphabet(8, seed, extra=2)
-        out.append(ProductSpace('words-W(10,5)', S.word_dims(al, 5), words,
-                                bounds={'combos': len(words.cmbs), 'letters': al}))
-        out.append(ProductSpace('words-W(6,6)', S.word_dims(S.alphabet(6), 6), words,
-                                bounds={'combos': len(words.cmbs), 'letters': S.alphabet(6)}))
+        out.append(ListSpace('sensitive-crops-deep', crops, eval_crop))
+        out.append(ProductSpace('short{-2,0,2}^11', [[-2, 0, 2]] * 11, eval_short))
+        out.append(ProductSpace('tiny2{-1,0,1}^11', [[-1, 0, 1]] * 11, t2, bounds={'combos': len(t2.cmbs)}))
+        tp = _Tiny(tier)
+        tp.cmbs = [c for c in tp.cmbs if c[1]]          # 8 samples < 9 taps: only with padding
+        out.append(ProductSpace('tiny{-2..2}^8', [[-2, -1, 0, 1, 2]] * 8, tp, bounds={'combos': len(tp.cmbs)},
+                                describe='every signal in {-2..2}^8 (pad=True combinations)'))
+        al = S.alphabet(8, seed, extra=0)
+        out.append(ProductSpace('words-W(8,5)', S.word_dims(al, 5), words, bounds={'combos': len(words.cmbs), 'letters': al}))
+        ex = S.alphabet(0, seed, extra=2) + S.alphabet(3)
+        out.append(ProductSpace('words-Wextra(5,5)', S.word_dims(ex, 5), words, bounds={'combos': len(words.cmbs), 'letters': ex}))
     return out
